@@ -715,8 +715,16 @@ def gen_run_case(r, invalid=False, hostile=False):
             'pstyle': r.choice(['sep', 'eq', 'long']), 'out': r.choice(['text', 'text', 'text', 'json', 'json', 'policy'])}
     n = 1 if mode == 'single' else r.choice([1, 2, 3, 5])
     truth, texts, tags = [], [], []
+    kinds = []
     for _ in range(n):
-        h, kind = gen_host(r)
+        if truth and r.random() < 0.35:
+            # the same host again (another port, or the same one): what one target did must not leak into the next (seed C18-7)
+            j = r.randrange(len(truth))
+            h, kind = truth[j][0], kinds[j]
+            tags.append('host-repeated')
+        else:
+            h, kind = gen_host(r)
+        kinds.append(kind)
         p = None if r.random() < 0.4 else gen_port(r)
         t, sp = spell(r, h, kind, p)
         truth.append([h, p])
@@ -985,6 +993,13 @@ def run(ctx):
     d33 = {'level': 'run', 'mode': 'single', 'oport': None, 'flags': '64', 'fstyle': 'cluster', 'out': 'text', 'host_arg': 'dual.example',
            'rows': [['dual.example', AF4, 1, '10.0.0.4'], ['dual.example', AF6, 1, '2001:db8::6']], 'ups': ['10.0.0.4', '2001:db8::6'], 'truth': [['dual.example', None]]}
     runs.append((d33, ['corpus-D33']))
+    # the same name listed on two ports, the name having several addresses per family (seed C18-7: address remembered per name, port included)
+    for fl in ('', '4', '64'):
+        runs.append(({'level': 'run', 'mode': 'file', 'oport': None, 'flags': fl, 'fstyle': 'cluster', 'pstyle': 'sep', 'out': 'text',
+                      'file_text': 'multi.example\nmulti.example:2222\nmulti.example:22\n',
+                      'rows': [['multi.example', AF4, 1, '10.0.0.4'], ['multi.example', AF4, 1, '10.0.0.5'], ['multi.example', AF6, 1, '2001:db8::6'], ['multi.example', AF6, 1, '2001:db8::7']],
+                      'ups': ['10.0.0.4', '10.0.0.5', '2001:db8::6', '2001:db8::7'], 'truth': [['multi.example', None], ['multi.example', 2222], ['multi.example', 22]]},
+                     ['corpus-same-name-two-ports', 'host-repeated']))
     runs += grid_runs(r)
     n_runs = ctx.scale(1500, 30000)
     for i in range(n_runs):
